@@ -252,6 +252,30 @@ def checks(jobs):
     report()
 
 
+def classify(x):
+    """why a surviving, unreported mutant changes nothing any listed property can see (by inspection)"""
+    o, n = x['old'].strip(), x['new'].strip()
+    if re.search(r'with_capacity\w*\((0|1)[,)]', o) and 'with_capacity' in n:
+        return 'capacity only (initial capacity 0 -> 1)'
+    if re.search(r'(shrink_to_fit|reserve(_exact)?)\(', o) and n == '{}':
+        return 'capacity only (room of an internal vector, or no shrinking; capacity() reports the map, no upper bound is promised)'
+    if 'log2_fast' in o or 'leading_zeros' in o or 'let rebuild' in o or 'len1' in o or o in ('false', 'return false;'):
+        return 'strategy choice of extend (push each vs rebuild; invisible by C07; level parity unchanged where log2_fast feeds level())'
+    if o == 'std::mem::swap(self, other);':
+        return 'append without its swap optimisation (receiver priorities stay: within what C07 allows; still linear)'
+    if 'self.iter = None' in o:
+        return 'inner iterator dropped later (never used again)'
+    if 'next()' in o and 'next_back' in n:
+        return 'iter_mut of PriorityQueue yields in reverse map order (no order is promised for iter_mut)'
+    if 'heapify' in o and 'up_heapify' in n:
+        return 'more work, same result (up_heapify = bubble up, then heapify)'
+    if ('Position(0)' in o and 'let mut pos' in o) or re.search(r'^\d+ =>', o) or 'unwrap_or' in o or 'self.len() <= 1' in o or 'hole.position()' in o or 'pos.0 < self.len()' in o:
+        return 'dead value / unreachable case (overwritten initial value, duplicate match arm, guard implied by the level structure or by a checked get)'
+    if re.search(r' (<|>|<=|>=) ', o) or o.startswith('<') or o.startswith('>'):
+        return 'tie handling in a sift comparison (equal priorities exchanged or not: either is a valid heap)'
+    return 'other'
+
+
 def report():
     cands = json.load(open(AM + '/cands.json'))
     tests_r = json.load(open(AM + '/tests.json'))
@@ -271,9 +295,15 @@ def report():
     for c in det:
         byc.setdefault(res[c['id']]['detected_by'], []).append(c)
     L.append('First check to report (in the order ' + ' '.join(ORDER) + '): ' + ', '.join('%s %d' % (k, len(v)) for k, v in sorted(byc.items())))
-    L += ['', '## Survivors of the tests that no check reports', '', 'Each was inspected by hand; see DESIGN.md §8 for the classification.', '', '| id | site | change | line |', '|---|---|---|---|']
+    L += ['', '## Survivors of the tests that no check reports', '', 'Each was inspected by hand; the last column says why no listed property can tell it from the original (see DESIGN.md §8).', '']
+    cnt2 = {}
     for c in und:
-        L.append('| %s | %s:%d | %s | `%s` |' % (c['id'], c['file'], c['line'], c['what'], c['new'].strip().replace('|', '\\|')[:110]))
+        cnt2[classify(c)] = cnt2.get(classify(c), 0) + 1
+    for k, v in sorted(cnt2.items(), key=lambda kv: -kv[1]):
+        L.append('* %d: %s' % (v, k))
+    L += ['', '| id | site | change | line | class |', '|---|---|---|---|---|']
+    for c in und:
+        L.append('| %s | %s:%d | %s | `%s` | %s |' % (c['id'], c['file'], c['line'], c['what'], c['new'].strip().replace('|', '\\|')[:110], classify(c).split(' (')[0]))
     L += ['', '## Survivors of the tests reported by a check', '', '| id | site | change | first check | oracle class |', '|---|---|---|---|---|']
     for c in det:
         r = res[c['id']]
